@@ -219,6 +219,10 @@ class HumanMessageSerializer:
         if serializer and beautify and not isinstance(var_val, VerbatimHumanVal):
             try:
                 pretty_data = serializer.deserialize(block, var_val, pod=True)
+                # Decoders can be more lenient than the encoder is faithful (trailing junk, missing
+                # terminators). Only show the pretty form if it'd actually give back the same value.
+                if pretty_data is not se.UNSERIALIZABLE and serializer.serialize(block, pretty_data) != var_val:
+                    pretty_data = se.UNSERIALIZABLE
                 if pretty_data is not se.UNSERIALIZABLE:
                     string += f"  {var_name} =| {cls._multi_line_pformat(pretty_data)}"
                     if serializer.AS_HEX and isinstance(var_val, int):
